@@ -85,31 +85,31 @@ mod mac_nested__par;
 mod mac_gensym_disj__exppar;
 mod mac_block__pari;
 mod stress_lat__ser;
-mod rnd_core_01__pari;
-mod rnd_core_04__par;
-mod rnd_core_07__ser;
-mod rnd_core_09__pari;
-mod rnd_core_12__par;
-mod rnd_core_15__ser;
-mod rnd_core_17__pari;
-mod rnd_core_20__par;
-mod rnd_core_23__ser;
-mod rnd_core_25__pari;
-mod rnd_core_28__par;
-mod rnd_agg_01__ser;
-mod rnd_agg_03__pari;
-mod rnd_agg_06__par;
-mod rnd_agg_09__ser;
-mod rnd_agg_11__pari;
-mod rnd_agg_14__par;
-mod rnd_prec_01__to;
-mod rnd_prec_03__par;
-mod rnd_prec_04__topar;
-mod rnd_prec_06__pari;
-mod rnd_prec_08__ser;
-mod rnd_prea_02__ser;
-mod rnd_prea_04__pari;
-mod rnd_prea_07__par;
+mod stress_rel__pari;
+mod rnd_core_03__par;
+mod rnd_core_06__ser;
+mod rnd_core_08__pari;
+mod rnd_core_11__par;
+mod rnd_core_14__ser;
+mod rnd_core_16__pari;
+mod rnd_core_19__par;
+mod rnd_core_22__ser;
+mod rnd_core_24__pari;
+mod rnd_core_27__par;
+mod rnd_core_30__ser;
+mod rnd_agg_02__pari;
+mod rnd_agg_05__par;
+mod rnd_agg_08__ser;
+mod rnd_agg_10__pari;
+mod rnd_agg_13__par;
+mod rnd_prec_01__ser;
+mod rnd_prec_02__to;
+mod rnd_prec_04__par;
+mod rnd_prec_05__topar;
+mod rnd_prec_07__pari;
+mod rnd_prea_01__ser;
+mod rnd_prea_03__pari;
+mod rnd_prea_06__par;
 
 fn lookup(name: &str) -> fn() -> Box<dyn Driven> {
    match name {
@@ -190,31 +190,31 @@ fn lookup(name: &str) -> fn() -> Box<dyn Driven> {
       "mac_gensym_disj__exppar" => mac_gensym_disj__exppar::make,
       "mac_block__pari" => mac_block__pari::make,
       "stress_lat__ser" => stress_lat__ser::make,
-      "rnd_core_01__pari" => rnd_core_01__pari::make,
-      "rnd_core_04__par" => rnd_core_04__par::make,
-      "rnd_core_07__ser" => rnd_core_07__ser::make,
-      "rnd_core_09__pari" => rnd_core_09__pari::make,
-      "rnd_core_12__par" => rnd_core_12__par::make,
-      "rnd_core_15__ser" => rnd_core_15__ser::make,
-      "rnd_core_17__pari" => rnd_core_17__pari::make,
-      "rnd_core_20__par" => rnd_core_20__par::make,
-      "rnd_core_23__ser" => rnd_core_23__ser::make,
-      "rnd_core_25__pari" => rnd_core_25__pari::make,
-      "rnd_core_28__par" => rnd_core_28__par::make,
-      "rnd_agg_01__ser" => rnd_agg_01__ser::make,
-      "rnd_agg_03__pari" => rnd_agg_03__pari::make,
-      "rnd_agg_06__par" => rnd_agg_06__par::make,
-      "rnd_agg_09__ser" => rnd_agg_09__ser::make,
-      "rnd_agg_11__pari" => rnd_agg_11__pari::make,
-      "rnd_agg_14__par" => rnd_agg_14__par::make,
-      "rnd_prec_01__to" => rnd_prec_01__to::make,
-      "rnd_prec_03__par" => rnd_prec_03__par::make,
-      "rnd_prec_04__topar" => rnd_prec_04__topar::make,
-      "rnd_prec_06__pari" => rnd_prec_06__pari::make,
-      "rnd_prec_08__ser" => rnd_prec_08__ser::make,
-      "rnd_prea_02__ser" => rnd_prea_02__ser::make,
-      "rnd_prea_04__pari" => rnd_prea_04__pari::make,
-      "rnd_prea_07__par" => rnd_prea_07__par::make,
+      "stress_rel__pari" => stress_rel__pari::make,
+      "rnd_core_03__par" => rnd_core_03__par::make,
+      "rnd_core_06__ser" => rnd_core_06__ser::make,
+      "rnd_core_08__pari" => rnd_core_08__pari::make,
+      "rnd_core_11__par" => rnd_core_11__par::make,
+      "rnd_core_14__ser" => rnd_core_14__ser::make,
+      "rnd_core_16__pari" => rnd_core_16__pari::make,
+      "rnd_core_19__par" => rnd_core_19__par::make,
+      "rnd_core_22__ser" => rnd_core_22__ser::make,
+      "rnd_core_24__pari" => rnd_core_24__pari::make,
+      "rnd_core_27__par" => rnd_core_27__par::make,
+      "rnd_core_30__ser" => rnd_core_30__ser::make,
+      "rnd_agg_02__pari" => rnd_agg_02__pari::make,
+      "rnd_agg_05__par" => rnd_agg_05__par::make,
+      "rnd_agg_08__ser" => rnd_agg_08__ser::make,
+      "rnd_agg_10__pari" => rnd_agg_10__pari::make,
+      "rnd_agg_13__par" => rnd_agg_13__par::make,
+      "rnd_prec_01__ser" => rnd_prec_01__ser::make,
+      "rnd_prec_02__to" => rnd_prec_02__to::make,
+      "rnd_prec_04__par" => rnd_prec_04__par::make,
+      "rnd_prec_05__topar" => rnd_prec_05__topar::make,
+      "rnd_prec_07__pari" => rnd_prec_07__pari::make,
+      "rnd_prea_01__ser" => rnd_prea_01__ser::make,
+      "rnd_prea_03__pari" => rnd_prea_03__pari::make,
+      "rnd_prea_06__par" => rnd_prea_06__par::make,
       _ => panic!("no such program variant in this shard: {}", name),
    }
 }
